@@ -20,9 +20,9 @@ open PV PV.Dp
 
 theorem reachable {fp : FdlParams} (hfp : FpOk fp) {slots : List (Option Peripheral)}
     (hinit : InitOk fp slots) (gr : Bool) (ops : List Op) :
-    ∀ {g : G}, grun fp (G.init slots gr) ops = .ok g → Inv fp g ∧ (g.tainted = false → Inv14 g) := by
-  suffices H : ∀ (ops : List Op) (g0 : G), Inv fp g0 → (g0.tainted = false → Inv14 g0) →
-      ∀ g, grun fp g0 ops = .ok g → Inv fp g ∧ (g.tainted = false → Inv14 g) by
+    ∀ {g : G}, grun fp (G.init slots gr) ops = .ok g → Inv fp g ∧ (g.staleEv = false → Inv14 g) := by
+  suffices H : ∀ (ops : List Op) (g0 : G), Inv fp g0 → (g0.staleEv = false → Inv14 g0) →
+      ∀ g, grun fp g0 ops = .ok g → Inv fp g ∧ (g.staleEv = false → Inv14 g) by
     intro g h; exact H ops _ (inv_init hinit gr) (fun _ => inv14_init hinit gr) g h
   intro ops
   induction ops with
@@ -33,7 +33,7 @@ theorem reachable {fp : FdlParams} (hfp : FpOk fp) {slots : List (Option Periphe
     cases hs : gstep fp g0 op with
     | ok g1 =>
       rw [hs] at h
-      exact ih g1 (inv_step hfp h1 op hs) (fun hu => inv14_step hfp h1 (h2 (tainted_mono op hs hu)) op hs hu) g h
+      exact ih g1 (inv_step hfp h1 op hs) (fun hu => inv14_step hfp h1 (h2 (staleEv_mono op hs hu)) op hs hu) g h
     | panic => rw [hs] at h; cases h
     | hang => rw [hs] at h; cases h
     | refused => rw [hs] at h; cases h
@@ -186,7 +186,7 @@ theorem one_event_per_callback {fp : FdlParams} (hfp : FpOk fp) {g g' : G} (hI :
       refine ⟨_, rfl, ?_⟩
       simp only [G.polled, afterDecline]; cases nextSlot m1.slots index <;> rfl
   | reply a t =>
-    rcases reply_cases hI h with ⟨index, i, p, p', ev, _, _, _, _, _, _, rfl⟩ | ⟨_, _, _, _, _, _, _, _, rfl⟩
+    rcases reply_cases hI h with ⟨index, i, p, p', ev, _, _, _, _, _, _, rfl⟩ | ⟨_, _, _, _, _, _, _, rfl⟩
     · cases ev with
       | none => left; simp
       | some e => right; exact ⟨_, rfl, rfl⟩
@@ -285,14 +285,17 @@ theorem cycle_completed_poll (m1 : Master) (index1 e : Nat) (pe p' : Peripheral)
 
 /-- `cycle_completed_once`, reply side: a reply ends the turn of the addressed peripheral; the index
 moves to the next occupied slot, or — exactly when none follows — the cycle is completed and reported. -/
-theorem cycle_completed_reply {fp : FdlParams} {g g' : G} (hI : Inv fp g) (hu : g.tainted = false)
+theorem cycle_completed_reply {fp : FdlParams} {g g' : G} (hI : Inv fp g)
     {a : UInt8} {t : Telegram} (h : gstep fp g (.reply a t) = .ok g') :
+    -- a stale reply (`reset_address()` while the request was in flight) moves nothing
+    (g'.m = g.m ∧ g'.o = .ignored) ∨
     ∃ index i p, g.m.cycle = .dx index ∧ curSlot g.m.slots index = some (i, p) ∧ p.address = a ∧
       (g'.m.lastEvents.cycleCompleted = true ↔ nextSlot g.m.slots index = none) ∧
       (nextSlot g.m.slots index = none → g'.m.cycle = .completed) ∧
       (∀ n, nextSlot g.m.slots index = some n → g'.m.cycle = .dx n) := by
-  obtain ⟨index, i, p, p', ev, _, hcy, hc, hpa, _, _, rfl⟩ := reply_form hI hu h
-  exact ⟨index, i, p, hcy, hc, hpa, afterReply_cycle g.m index i p p' ev⟩
+  rcases reply_cases hI h with ⟨index, i, p, p', ev, _, hcy, hc, hpa, _, _, rfl⟩ | ⟨_, _, _, _, _, _, _, rfl⟩
+  · exact .inr ⟨index, i, p, hcy, hc, hpa, afterReply_cycle g.m index i p p' ev⟩
+  · exact .inl ⟨rfl, rfl⟩
 
 /-- The slot the index moves to is the *next* occupied one (nothing occupied in between), and
 "none follows" means no later slot is occupied. -/
